@@ -15,7 +15,8 @@ void console_hwinit(console_t *c) { (void)c; }
 
 /* harness call-back: one dispatch of a registered command.
  * off[i]: offset of argv[i] inside the 80-byte line buffer, -1 if it points elsewhere;
- * term[i]: 1 if a NUL follows inside the buffer; arg[i]: the string (bounded copy). Returns #yields. */
+ * term[i]: 1 if a NUL follows inside the buffer; arg[i]: the string (bounded copy).
+ * Returns #yields (bits 0-3) | scribble flag (bit 4) | first byte (bits 8-15) | byte count (bits 16-23). */
 extern int hc_capture(int cmd, int argc, const int *off, const int *term, const char (*arg)[81]);
 
 #define MAXCMD 40
@@ -50,7 +51,13 @@ static pt_state_t capture_cmd(console_t *c)
 				term[i] = 0;
 			}
 		}
-		remaining = hc_capture((int)(c->cmd - cmds), c->argc, off, term, arg);
+		int code = hc_capture((int)(c->cmd - cmds), c->argc, off, term, arg);
+		remaining = code & 15;
+		if (code & 16) { /* the command keeps state in the scratch area, as console.h allows */
+			int a = (code >> 8) & 255, n = (code >> 16) & 255;
+			for (int i = a; i < a + n && i < SCRATCH_SIZE; i++)
+				c->scratch.u8[i] = (uint8_t)('a' + i % 26);
+		}
 	}
 	while (remaining > 0) {
 		remaining--;
